@@ -1616,7 +1616,28 @@ prop("C10", run=lambda ctx: run_engine_generic(ctx, mix=(("stable", 5), ("wild",
 prop("C11", run=lambda ctx: run_engine_generic(ctx))
 prop("C13", run=lambda ctx: run_engine_generic(ctx))
 prop("C14", run=lambda ctx: run_engine_generic(ctx, mix=(("faulty", 6), ("wild", 3), ("stable", 1))))
-prop("C08", run=lambda ctx: run_engine_generic(ctx, owners=["C08", "C11"]))
+def run_c08(ctx):
+    """the generic engine scenarios, and a share of them with a rule removed from the *instance* between two calls: what the
+    instance remembers of nodes the removed rule shared with a live rule must still be forgotten at the next call"""
+    res = Result()
+    res.rule = ENGINE_RULE + "; a fifth of the scenarios remove a rule from the instance between two calls"
+    scs = corpus(ctx.prop) + gen_engine(ctx, ctx.n(1000, 12000), [("stable", 6), ("wild", 3), ("faulty", 1)], ctx.prop)
+    rng = Rng(ctx.seed * 7919 + 8)
+    for sc in scs:
+        if sc.get("witness") or rng.below(5) != 0:
+            continue
+        ops = sc["ops"]
+        execs = [i for i, o in enumerate(ops) if o.get("op") in ("exec", "fetch") and o.get("inst")]
+        names = [r["name"] for o in ops if o.get("op") == "build" for r in (o.get("rules") or [])]
+        if len(execs) >= 2 and len(names) >= 2:
+            ops.insert(execs[-1], {"op": "remove", "inst": ops[execs[-1]]["inst"], "rule": rng.choice(names)})
+            sc["id"] += "+rm"
+    for i in range(0, len(scs), 1500):
+        engine_sweep(ctx, res, scs[i:i + 1500], owners=["C08", "C11"])
+    return res
+
+
+prop("C08", run=run_c08)
 prop("C17", run=run_c17)
 prop("C05", run=run_c05)
 prop("C18", run=run_c18)
